@@ -523,8 +523,9 @@ func (inp Input) ABIType(pos int) (int, atype) {
 		}
 		base = tuple(fields...)
 	case strings.HasPrefix(inp.Type, "bytes"):
+		name, _, _ := strings.Cut(inp.Type, "[")
 		switch {
-		case strings.TrimSuffix(strings.TrimPrefix(inp.Type, "bytes"), "[") == "":
+		case name == "bytes":
 			base = dynamic()
 		default:
 			base = static()
